@@ -70,4 +70,65 @@ PROPS = {
                                     "str:backslash", "str:dollar", "dt:zone", "ref:dis", "xstr", "coord", "symbol", "uri"]},
         "min_evals": {"quick": 50_000, "thorough": 1_000_000},
     },
+    "C02": {
+        "quick": [phase(16, 1.0, 60)],
+        "thorough": [phase(16, 1.0, 1500)],
+        "rule": ("cases = the C01 generator's model values; each is serialised through serde_json::to_string / to_vec / to_value and "
+                 "deserialised through from_str / from_slice / from_value (all 9 combinations, round robin), and scalars and top-level "
+                 "collections additionally through their own typed Serialize+Deserialize impl; compared component-wise in the harness "
+                 "model with absent == empty grid meta. non-trivial / distinct as in C01"),
+        "assumptions": [WELLFORMED, "NaN payload bits are one class", "absent and empty grid/column meta are the same value",
+                        "'ver' is the reserved version tag of grid meta, not generated as a user meta tag",
+                        "chrono-tz is the trusted zone database"],
+        "require_strata": {"both": ["grid:meta", "grid:colmeta", "grid:zero-rows", "grid:missing-cell", "grid:null-cell", "num:nan",
+                                    "num:inf", "num:neg0", "num:subnormal", "num:unit", "num:int>=2^63", "str:astral", "str:control",
+                                    "dt:zone", "ref:dis", "typed-impl", "entry:to_string x from_str".replace(" x ", "x"),
+                                    "entry:to_valuexfrom_value", "entry:to_vecxfrom_slice"]},
+        "min_evals": {"quick": 50_000, "thorough": 1_000_000},
+    },
+    "C10": {
+        "quick": [phase(16, 1.0, 60)],
+        "thorough": [phase(16, 1.0, 1200)],
+        "crash_is_violation": True,
+        "rule": ("cases = Values built directly through public fields/constructors with every String field arbitrary (empty, NUL, "
+                 "non-ASCII first char, controls), NaN/INF with units, the default unit, out-of-range dates, leap-second times, "
+                 "far-future/past timestamps in any bundled zone, grids whose rows and columns disagree / zero or duplicate columns / "
+                 "odd ver, chains nested 1..64 deep, plus decoder images of foreign Hayson/Zinc documents and of both decoders on "
+                 "generated values; each offered to to_zinc_string, ToZinc (typed), serde_json::to_string/to_value (Value and typed), "
+                 "Display, Dict::dis/dict_to_dis under catch_unwind. oracle = returned. distinct = distinct Debug renderings"),
+        "assumptions": ["nesting depth <= 64 as the property bounds it", "a returned Err counts as 'returned'"],
+        "require_strata": {"both": ["foreign:json-image", "foreign:zinc-image", "illformed:xstr", "illformed:grid", "illformed:dict",
+                                    "illformed:dateTime", "illformed:ref", "deep:64", "cross-codec"]},
+        "min_evals": {"quick": 50_000, "thorough": 1_000_000},
+    },
+    "C12": {
+        "quick": [phase(16, 8.0, 60)],
+        "thorough": [phase(16, 12.0, 1200)],
+        "rule": ("cases = (a) a fixed pool of ~110 near-colliding Values (+0/-0, same magnitude with different/absent/default unit, Refs "
+                 "differing only in dis, dicts differing in one key or value, list prefixes, equal instants in 4 zones, the same payload "
+                 "under different kinds, grids differing in meta/column meta/ver) and typed pools (Number, Coord, Ref, Dict, Grid, Column, "
+                 "Str, Uri, Symbol, XStr, Bool, Date, Time, DateTime, Unit): ALL ordered pairs and ALL triples; (b) random pools of 8-17 "
+                 "small values over a tiny alphabet (all pairs and triples); (c) pools from the well-formed generator. Laws: == reflexive/"
+                 "symmetric/transitive, clone equal, a==b => hash equal, cmp antisymmetric/transitive, cmp==Equal <=> ==, partial_cmp "
+                 "Some(o) => cmp==o, and HashSet/BTreeSet/sort/sort+dedup agree with the number of ==-classes. evaluations = pair and "
+                 "triple evaluations; distinct = distinct pool members (structural fingerprint)"),
+        "assumptions": ["NaN excluded as the property states", "bare Number sort()/BTreeSet behaviour is checked per unit only: Number's own partial order "
+                        "has no answer across units, which the statement allows; mixed units are checked through Value"],
+        "exhaustive": False,
+        "require_strata": {"both": ["pool:value", "random:value", "generated:value"]},
+        "min_evals": {"quick": 1_000_000, "thorough": 50_000_000},
+    },
+    "C19": {
+        "quick": [phase(16, 1.0, 60)],
+        "thorough": [phase(16, 1.0, 1200)],
+        "rule": ("cases = generated values (every scalar kind in turn + nested values): exactly one of the 18 is_* predicates is true and it "
+                 "is the model's kind; HaystackKind::from(&Value); every TryFrom<&Value> (17 target types) and every HaystackDict getter "
+                 "(14) succeeds iff the kind matches and returns the stored payload (strict model equality), absent keys give None; "
+                 "has/missing/has_marker/has_na/has_remove/id/safe_id/ts; kind <-> u8 <-> name checked exhaustively over all 256 codes, all "
+                 "names and ~110 near-miss names; Grid::make_from_dicts / _with_meta / Value::make_grid_from_dicts on random record lists: "
+                 "rows kept in order, columns = sorted distinct union of keys, every row key is a column, Index and iteration agree"),
+        "assumptions": ["kind table part is exhaustive; the value part is sampled"],
+        "require_strata": {"both": ["kind-code", "kind-name", "kind-name-nearmiss", "grid-build", "grid", "dict", "list", "dateTime", "xstr"]},
+        "min_evals": {"quick": 50_000, "thorough": 1_000_000},
+    },
 }
